@@ -35,6 +35,7 @@ const struct option longOpts[] = {
 */
 const char shortOpts[] = "edvVhni:o:k:m:";
 char fout[128];
+static bool fout_too_long = false;
 /*################################
   辅助函数
 ################################*/
@@ -119,7 +120,7 @@ bool parseOpts(char c, vpak_t *res)
         break;
     case 'i':
         res->fp = fopen(optarg, "rb");
-        sprintf(fout, "%s.wenc", optarg);
+        fout_too_long = snprintf(fout, sizeof(fout), "%s.wenc", optarg) >= (int)sizeof(fout);
         try
         {
             auto fileSize = std::filesystem::file_size(optarg);
@@ -223,6 +224,7 @@ u8_t *get_v_opt(int argc, char *argv[])
 {
     srand((unsigned)time(NULL));
     memset(fout, 0, sizeof(fout));
+    fout_too_long = false;
     int option_index = 0;
     optind = 0; // 0 (not 1) makes glibc reinitialise its scanner: a previous parse may have stopped inside a clustered option
     vpak_t *res = new vpak_t;
@@ -288,10 +290,38 @@ u8_t *get_v_opt(int argc, char *argv[])
         if (res->out == NULL)
         {
             strlog("Note :", "Using default output file name");
-            res->out = fopen(fout, "wb+");
+            if (!fout_too_long)
+                res->out = fopen(fout, "wb+");
+            if (res->out == NULL)
+            {
+                strlog("Error :", "Could not open default output file, use -o");
+                delete res;
+                return NULL;
+            }
         }
         getRandomBuffer(res->r_buf);
         printkey(res->key);
+    }
+    else if (res->mode == 'd' || res->mode == 'v')
+    {
+        if (res->fp == NULL)
+        {
+            strlog("Error :", "No file specified");
+            delete res;
+            return NULL;
+        }
+        if (res->key == NULL)
+        {
+            strlog("Error :", "No key specified");
+            delete res;
+            return NULL;
+        }
+        if (res->mode == 'd' && res->out == NULL)
+        {
+            strlog("Error :", "No output file specified");
+            delete res;
+            return NULL;
+        }
     }
     return res->buf;
 }
